@@ -26,7 +26,9 @@ TECHNIQUE = 'property-based testing (Hypothesis) + small exhaustive enumeration,
 RULE = ('pure case = (existing position list, sequence of insert batches); existing = union of integer runs, '
         'literal floats and nextfloat chains (gaps of 1-4 representable floats); each requested key is '
         '"at row i" (tie), "next float after row i", "previous float", midpoint, +inf, -inf, 0 or a literal, '
-        'resolved against the list as left by the previous batch; batches of 1-40 keys, up to 8 batches. '
+        'resolved against the list as left by the previous batch; batches of 1-24 keys, up to 5 batches; a '
+        '"crowded" class puts dense clusters 2**3..2**22 floats apart so that relabel ranges of neighbouring '
+        'insert groups overlap. '
         'Enumerated part: every chain of <=3 adjacent floats (gaps 1-3) at 5 anchors x every batch of <=3 '
         'keys over {at i, after i, +inf, -inf, 0}. Engine case = history of <=30 position-writing bundles. '
         'Non-trivial = at least one batch/bundle forced a relabel (an adjustment to an existing row); '
@@ -51,7 +53,7 @@ ASSUMPTIONS = [
   '_grist_ACLRules row 1 (InitNewDoc special legacy record, "not actually used") keeps the unset position '
   '+inf; it still takes part in the distinctness check',
 ]
-BUDGET = {'quick': dict(examples=8000, shards=8, max_seconds=60),
+BUDGET = {'quick': dict(examples=6000, shards=8, max_seconds=60),
           'thorough': dict(examples=200000, shards=16, max_seconds=600)}
 
 INF = float('inf')
@@ -262,6 +264,8 @@ def one_batch(out, cur, keys, tag):
     out.cls('relabel-forced')
     if len(adjustments) == len(cur) and len(cur) > 1:
       out.cls('relabel-everything')
+    if len(set(bisect.bisect_left(cur, q) for q in keys)) > 1:
+      out.cls('relabel-with-several-insert-groups')
   if len(set(keys)) < len(keys):
     out.cls('req:duplicates')
   return sorted(final + new_keys), bool(adjustments)
@@ -674,9 +678,21 @@ def strategy(tier):
 
   def pure(base, weight_multi=True):
     step = st.one_of(st.lists(_keyspec(lit_req), min_size=1, max_size=6),
-                     st.lists(_keyspec(lit_req), min_size=1, max_size=40))
+                     st.lists(_keyspec(lit_req), min_size=1, max_size=24))
     return st.fixed_dictionaries({'kind': st.just(0), 'existing': existing(base),
-                                  'steps': st.lists(step, min_size=1, max_size=8 if weight_multi else 2)})
+                                  'steps': st.lists(step, min_size=1, max_size=5 if weight_multi else 2)})
+
+  # dense clusters separated by 2**3..2**22 floats, hit by several tie / next-float requests in one batch:
+  # the relabel ranges of neighbouring groups overlap, so rows are adjusted more than once per call
+  cluster_gaps = st.lists(st.one_of(st.just(0), st.just(0), st.just(0), st.integers(0, 3), st.integers(103, 122)),
+                          min_size=2, max_size=40)
+  crowded = st.fixed_dictionaries({
+    'kind': st.just(0),
+    'existing': st.lists(st.fixed_dictionaries({'k': st.just(2), 'v': normal, 'g': cluster_gaps}),
+                         min_size=1, max_size=2),
+    'steps': st.lists(st.lists(st.fixed_dictionaries({'k': st.sampled_from([0, 0, 1, 1, 6]), 'i': st.integers(0, 60),
+                                                      'v': st.just(0.0)}), min_size=2, max_size=16),
+                      min_size=1, max_size=3)})
 
   op = st.fixed_dictionaries({
     'o': st.sampled_from([0, 0, 1, 1, 1, 2, 2, 3, 4, 5, 5, 6, 7, 8, 9, 10, 10, 11]),
@@ -688,8 +704,8 @@ def strategy(tier):
   mixed = st.one_of(normal, normal, subn, legacy)
   # explicit weights (per 1000); an engine case costs ~300x a pure case, a top-insert prelude ~2000x
   # (Hypothesis favours the ends of an integer range, so the expensive classes sit in the middle.)
-  table = [(350, pure(normal)), (60, pure(subn)), (60, pure(legacy)), (4, eng_halve), (96, eng),
-           (60, pure(mixed)), (20, pure(huge, False)), (350, pure(normal))]
+  table = [(250, pure(normal)), (150, crowded), (60, pure(subn)), (60, pure(legacy)), (4, eng_halve), (76, eng),
+           (60, pure(mixed)), (20, pure(huge, False)), (150, crowded), (170, pure(normal))]
 
   def pick(n):
     for w, s in table:
